@@ -1,5 +1,6 @@
 import Driver.Util
 import GrVerif.Model.Action
+import GrVerif.Model.Lines
 namespace Driver.Heap
 open GrVerif.Vm GrVerif.Seg GrVerif.Action Driver
 
@@ -58,6 +59,56 @@ def step (line : String) : String :=
           let l' := streamOf c.seg
           s!"ret={ret} status={showStatusH status} out={posIn l' slotOut} hw={posIn l' c.highwater} hp={if c.highpassed then 1 else 0} " ++ dumpSeg c.seg
     | _, _, _, _, _, _, _, _ => "bad-op"
+  | _ => "bad-op"
+
+
+/-- `lines <n> <op>...`: ops `b<k>` linebreak before slot k, `a<k>` addLineEnd(slot k) / `a-1` addLineEnd(NULL),
+`d<j>` delLineEnd(j-th sentinel), `F<k>` / `L<k>` set m_first / m_last.  Slots are named by creation order. -/
+def stepLines (line : String) : String :=
+  match words line with
+  | "lines" :: n :: ops =>
+    match n.toNat? with
+    | none => "bad-op"
+    | some n =>
+      let seg0 : Seg := { numGlyphs := n, numChars := n, slots := Array.replicate (n + 10) {}, free := List.range (n + 10),
+                          bufSize := Nat.log2 n + 1 }
+      let seg := (List.range n).foldl (fun s i => s.appendSlot i (1 + i % 5) 64) seg0
+      let ids0 := streamOf seg
+      let run := ops.foldl (fun (acc : Option (Seg × List Nat × List (Option Nat))) op =>
+        match acc with
+        | none => none
+        | some (s, ids, sents) =>
+          let c := (op.take 1).toString
+          match (op.drop 1).toString.toInt? with
+          | none => none
+          | some k =>
+            let slotOf (k : Int) : Option Nat := if k < 0 then none else ids[k.toNat]?
+            if c = "b" then
+              (match slotOf k with
+               | some p => (match s.linebreakBefore p with | some s' => some (s', ids, sents) | none => none)
+               | none => some (s, ids, sents))
+            else if c = "a" then
+              (match s.addLineEnd (slotOf k) 64 with
+               | some (e, s') => some (s', ids ++ [e], sents ++ [some e])
+               | none => none)
+            else if c = "d" then
+              (match sents[k.toNat]? with
+               | some (some e) => (match s.delLineEnd e with
+                  | some s' => some (s', ids, sents.set k.toNat none)
+                  | none => none)
+               | _ => some (s, ids, sents))
+            else if c = "F" then some (s.setFirst (slotOf k), ids, sents)
+            else if c = "L" then some (s.setLast (slotOf k), ids, sents)
+            else none) (some (seg, ids0, []))
+      match run with
+      | none => "fault"
+      | some (s, ids, sents) =>
+        let live := ids.zipIdx.filter fun (a, k) => k < n ∨ sents.contains (some a)
+        let idOf (p : Option Nat) : String := match p with
+          | none => "-1"
+          | some a => match (live.find? fun (b, _) => b = a) with | some (_, k) => toString k | none => "-2"
+        let parts := live.map fun (a, k) => s!"{k}:{idOf (s.get a).next},{idOf (s.get a).prev}"
+        String.intercalate " " (s!"first={idOf s.first} last={idOf s.last}" :: parts)
   | _ => "bad-op"
 
 end Driver.Heap
